@@ -1,0 +1,13 @@
+//go:build verif
+
+package workerpool
+
+// VerifSubmitHook, when set, is called by Submit after the IsRunning check succeeded and before the pending counter is
+// increased (verification builds only).
+var VerifSubmitHook func(w *WorkerPool)
+
+func verifSubmitWindow(w *WorkerPool) {
+	if hook := VerifSubmitHook; hook != nil {
+		hook(w)
+	}
+}
